@@ -5,6 +5,7 @@ CONSTANTS
   B = 3
   MaxTime = 8
   MaxArrivals = 7
+  Fates = {"served"}
   Depth = 0
 INVARIANT Invariants
 CHECK_DEADLOCK FALSE
